@@ -29,6 +29,9 @@ GROUPS = {
             ("text_arith", ["text_arith.members", "text_arith.order", "text_arith.no_panic", "text_arith.accepts"])],
     "C12": [("purity", ["purity.repeat", "purity.history", "purity.parsed_once", "purity.threads"]),
             ("text_plain", ["text_plain.api_agree"]), ("text_union", ["text_union.api_agree"]), ("text_filter", ["text_filter.api_agree"]), ("text_arith", ["text_arith.api_agree"])],
+    "C14": [("ext_direct", ["extension_custom.def", "extension_custom.laws", "extension_custom.no_panic"]),
+            ("e2e_ext", ["e2e_ext.members", "e2e_ext.multiplicity", "e2e_ext.order", "e2e_ext.no_panic", "e2e_ext.ok"]),
+            ("text_ext", ["text_ext.members", "text_ext.order", "text_ext.no_panic", "text_ext.accepts", "text_ext.api_agree"])],
     "C15": [("e2e", ["e2e.view_independent", "e2e.second_impl.members", "e2e.second_impl.multiplicity", "e2e.second_impl.order"]), ("text_filter", ["text_filter.api_agree", "text_filter.api_view_independent"]),
             ("text_plain", ["text_plain.api_agree", "text_plain.api_view_independent"]), ("text_arith", ["text_arith.api_view_independent"]), ("text_union", ["text_union.api_view_independent"]),
             ("cmp_struct", ["eq.structural", "lt.order"])],
@@ -50,7 +53,7 @@ CEX_GROUPS = {
     "process_key": ["name_lookup", "e2e"], "process_descendant": ["descendant", "e2e"], "process_selectors": ["selectors", "e2e"], "process_wildcard": ["e2e"],
     "eq_json": ["cmp_struct", "e2e_cmp"], "eq_arrays": ["cmp_struct"], "eq_ref_to_array": ["cmp_struct"], "Comparison::process": ["e2e_cmp"], "Comparable::process": ["e2e_cmp"],
     "Literal::process": ["e2e_cmp"], "SingularQuery::process": ["e2e_cmp"], "SingularQuerySegment::process": ["e2e_cmp"], "Vec<SingularQuerySegment>::process": ["e2e_cmp"],
-    "FnArg::process": ["e2e_fn"], "TestFunction::process": ["e2e_fn"],
+    "FnArg::process": ["e2e_fn"], "TestFunction::process": ["e2e_fn"], "Value::extension_custom": ["ext_direct"], "custom": ["e2e_ext"],
     "js_path": ["text_plain", "text_union"], "js_path_vals": ["text_plain", "text_union"], "js_path_path": ["text_plain", "text_union"], "js_path_process": ["e2e"],
     "JsonPath::query": ["text_plain", "text_union"], "JsonPath::query_only_path": ["text_plain", "text_union"], "JsonPath::query_with_path": ["text_plain", "text_union"],
     "Data::flat_map": ["e2e"], "Data::reduce": ["e2e"], "State::flat_map": ["e2e"], "State::reduce": ["e2e"], "Segment::process": ["e2e"], "Selector::process": ["e2e"],
